@@ -13,6 +13,7 @@ import (
 	"regexp"
 	"strings"
 	"sync"
+	"sync/atomic"
 	"testing"
 	"time"
 
@@ -47,6 +48,10 @@ type C04Req struct {
 type C04Case struct {
 	Cfg  C04Config `json:"cfg"`
 	Reqs []C04Req  `json:"reqs"`
+	// Crowd > 0 (only with credentials configured): before the history, Crowd clients with the right credentials and Crowd
+	// with wrong ones of the same length send requests at the same time, each on its own connection. The decision about
+	// one client's credentials must not depend on what another client is presenting at that moment.
+	Crowd int `json:"crowd,omitempty"`
 }
 
 const (
@@ -62,6 +67,8 @@ var (
 		{`(?i)denied\.test$`, `-(?i)^ok\.`},
 		{`.*\.denied\.test`, `-^ok\.denied\.test$`},
 		{`^denied\.test$`, `corp\.denied\.test`, `-^wiki\.corp\.denied\.test$`, `-^(?i)open\.`},
+		// a list that also names this machine: the list decides for every host, whatever --proxy-localhost says about it
+		{`^127\.0\.0\.`, `(?i)^localhost\.?$`, `^::1$`, `denied\.test$`, `-^127\.0\.0\.7$`},
 	}
 	c04LocalHosts = []string{"localhost", "LOCALHOST", "LocalHost", "127.0.0.1", "127.0.0.7", "127.255.255.254", "0.0.0.0",
 		"[::1]", "[0:0:0:0:0:0:0:1]", "[::]", "[::0]", "[0:0:0:0:0:0:0:0]", "[::ffff:127.0.0.1]", "[::ffff:0.0.0.0]", "[::FFFF:7F00:1]", "[0000::0001]", "localhost.", "LocalHost.", "[::1%25lo]"}
@@ -79,6 +86,9 @@ func genC04(t *rapid.T) C04Case {
 	c.Cfg.Localhost = rapid.SampledFrom([]string{"deny", "deny", "allow"}).Draw(t, "localhost")
 	c.Cfg.TimeFrame = rapid.SampledFrom([]string{"", "", "in", "out", "gap", "edge-in", "split-in"}).Draw(t, "timeframe")
 	c.Cfg.MITM = rapid.IntRange(0, 3).Draw(t, "mitm") == 0
+	if c.Cfg.Auth != "" && (c.Cfg.TimeFrame == "" || c.Cfg.TimeFrame == "in") && rapid.IntRange(0, 3).Draw(t, "crowd") == 0 {
+		c.Crowd = rapid.SampledFrom([]int{2, 4, 8}).Draw(t, "crowdsize")
+	}
 	n := rapid.IntRange(1, 4).Draw(t, "nreqs")
 	inTunnel := false
 	for i := 0; i < n; i++ {
@@ -465,6 +475,112 @@ func (e *c04Env) snapshot(p *ProxyInst) activity {
 	return a
 }
 
+var c04CrowdSeq atomic.Int64
+
+// c04Crowd: clients with the right credentials and clients with wrong ones (same user, a password of the same length; and
+// another user of the same length) send requests to an allowed site at the same moment, each over its own connection.
+func c04Crowd(e *c04Env, px *ProxyInst, c C04Case) (fails []vstat.Failure) {
+	user, pass, _ := strings.Cut(c.Cfg.Auth, ":")
+	flip := func(s string) string { // same length, last octet different
+		b := []byte(s)
+		b[len(b)-1] ^= 0x01
+		return string(b)
+	}
+	id := c04CrowdSeq.Add(1)
+	hostport := "allowed.test:" + e.named.Port
+	x := refDecide(e, c.Cfg, C04Req{Kind: "abs", Method: "GET", Host: "allowed.test", Cred: "exact"})
+	if len(x.codes) > 0 {
+		return nil // some other control refuses this site right now: nothing to learn here
+	}
+	type outcome struct {
+		right bool
+		n     int
+		fail  *vstat.Failure
+	}
+	const perClient = 25
+	res := make(chan outcome, 2*c.Crowd)
+	start := make(chan struct{})
+	for k := 0; k < 2*c.Crowd; k++ {
+		right := k%2 == 0
+		cred := user + ":" + pass
+		if !right {
+			cred = user + ":" + flip(pass)
+			if k%4 == 3 {
+				cred = flip(user) + ":" + pass
+			}
+		}
+		tag := fmt.Sprintf("crowd-%d-%d-%v", id, k, right)
+		go func() {
+			o := outcome{right: right}
+			defer func() { res <- o }()
+			var tc net.Conn
+			var br *bufio.Reader
+			defer func() {
+				if tc != nil {
+					tc.Close()
+				}
+			}()
+			<-start
+			for i := 0; i < perClient; i++ {
+				if tc == nil {
+					d, err := Dial(px.Addr)
+					if err != nil {
+						f := vstat.Failf("C04:harness", "crowd: dial: %v", err)
+						o.fail = &f
+						return
+					}
+					tc, br = d, bufio.NewReader(d)
+				}
+				tc.SetDeadline(time.Now().Add(10 * time.Second))
+				fmt.Fprintf(tc, "GET http://%s/%s HTTP/1.1\r\nHost: %s\r\nX-Vid: %s\r\nProxy-Authorization: Basic %s\r\n\r\n", hostport, tag, hostport, tag,
+					base64.StdEncoding.EncodeToString([]byte(cred)))
+				m, err := ReadResponse(br, "GET")
+				if err != nil {
+					f := vstat.Failf("C04:crowd:no-response", "crowd client %q, request %d: %v", cred, i, err)
+					o.fail = &f
+					return
+				}
+				o.n++
+				switch {
+				case right && m.Status != 200:
+					f := vstat.Failf("C04:crowd:right-credentials-refused", "while %d clients presented other credentials at the same time, a client with the configured credentials %q got %d %q at its request %d", c.Crowd, cred, m.Status, m.Body, i)
+					o.fail = &f
+					return
+				case !right && m.Status != 407:
+					f := vstat.Failf("C04:crowd:wrong-credentials-admitted", "while %d clients presented the configured credentials at the same time, a client presenting %q (configured: %q) got %d at its request %d instead of 407", c.Crowd, cred, c.Cfg.Auth, m.Status, i)
+					o.fail = &f
+					return
+				case !right:
+					if pa := m.Get("Proxy-Authenticate"); len(pa) == 0 || !strings.HasPrefix(strings.ToLower(pa[0]), "basic") {
+						f := vstat.Failf("C04:407-without-challenge", "crowd: 407 without a Proxy-Authenticate: Basic challenge (fields %v)", m.Fields)
+						o.fail = &f
+						return
+					}
+				}
+				if strings.EqualFold(m.First("Connection"), "close") {
+					tc.Close()
+					tc = nil
+				}
+			}
+		}()
+	}
+	close(start)
+	for k := 0; k < 2*c.Crowd; k++ {
+		o := <-res
+		if o.fail != nil && len(fails) < 3 {
+			fails = append(fails, *o.fail)
+		}
+	}
+	for _, r := range e.named.Requests() {
+		if r.Msg != nil && strings.HasPrefix(r.Msg.First("X-Vid"), fmt.Sprintf("crowd-%d-", id)) && strings.HasSuffix(r.Msg.First("X-Vid"), "-false") {
+			fails = append(fails, vstat.Failf("C04:crowd:wrong-credentials-admitted", "a request of a crowd client with wrong credentials reached the origin (%s)", r.Msg.First("X-Vid")))
+			break
+		}
+	}
+	st.Class("crowd-of-right-and-wrong-credentials")
+	return fails
+}
+
 func runC04(c C04Case) (fails []vstat.Failure) {
 	e, err := getEnv4()
 	if err != nil {
@@ -482,6 +598,11 @@ func runC04(c C04Case) (fails []vstat.Failure) {
 	var conn net.Conn = tc
 	br := bufio.NewReader(conn)
 	tunnelPort := ""
+	if c.Crowd > 0 && c.Cfg.Auth != "" {
+		if fails = c04Crowd(e, px, c); len(fails) > 0 {
+			return fails
+		}
+	}
 
 	for i, r := range c.Reqs {
 		x := refDecide(e, c.Cfg, r)
@@ -684,6 +805,11 @@ func classifyC04(c C04Case) (bool, string, []string) {
 		}
 		cls = append(cls, "kind-"+r.Kind)
 		shape = append(shape, fmt.Sprintf("%+v", r))
+	}
+	if c.Crowd > 0 {
+		nt = true
+		cls = append(cls, fmt.Sprintf("crowd=%d", c.Crowd))
+		shape = append(shape, fmt.Sprintf("crowd=%d", c.Crowd))
 	}
 	return nt, fmt.Sprintf("%+v|%s", c.Cfg, strings.Join(shape, "|")), dedupStrings(cls)
 }
